@@ -112,3 +112,36 @@ PROP["manifest"]["level_text"] += (
     "and code — a target sending +0.0 then -0.0 has the second update withheld as 'unchanged' (value.Equal compares doubles with ==), so a "
     "STREAM client keeps +0.0 where the cache stores -0.0: numerically equal, recorded as an interpretation of 'same value' (DESIGN.md 13.3).")
 
+# the property's own stream hypotheses (wellFormed false + RawFaithful): Props/C01Same.lean, Lemmas/PipelineSame.lean
+PROP["modules"] += ["Gnmi.Lemmas.PipelineSame", "Gnmi.Props.C01Same"]
+PROP["theorems"] += ["Gnmi.C01." + t for t in [
+    "collector_cache_holds_final_view_nondecreasing", "pipeline_faithful_once_nondecreasing_leaves",
+    "pipeline_faithful_once_nondecreasing", "pipeline_faithful_once_clause_holds",
+    "pipeline_faithful_stream_nondecreasing", "pipeline_faithful_nondecreasing",
+    "once_of_cache", "holdsExpected_of_leaves", "start_holds2",
+    # non-vacuity and necessity of RawFaithful
+    "stepsSame_senders", "stepsSame_hyps", "stepsSame_exact", "stepsSame_split", "stepsSame_ids",
+    "unfaithful_witness", "once_fails_without_rawFaithful",
+    "viewFacts_run_nd", "updatesOf_append"]] + ["Gnmi.Relay." + t for t in [
+    "relay_update_nd", "relay_multiUpdates_nd", "relay_dispatch_nd", "relay_notification_nd",
+    "from_update1", "from_gnmiUpdate", "Holds2.toHolds", "Holds2.connect", "Holds2.deliver", "Holds2.step",
+    "Holds2.run", "viewOK_final_nd"]] + ["Gnmi.C01S." + t for t in [
+    "stamp_clean_nd", "eventsP_update_nd", "sys_deliver_nd", "run_tr4_nd"]]
+PROP["manifest"]["level_text"] += (
+    " Property's own stream hypotheses (Props/C01Same.lean): collector_cache_holds_final_view_nondecreasing, "
+    "pipeline_faithful_once_nondecreasing (= the ONCE clause of pipeline_faithful exactly as stated: "
+    "pipeline_faithful_once_clause_holds) and pipeline_faithful_stream_nondecreasing (STREAM clause; extra hypotheses no '*' "
+    "target, ExactStream) hold for wellFormed false (per leaf non-decreasing timestamps: the stored timestamp with another "
+    "value) and RawFaithful streams: the run invariant Relay.Holds2 carries the provenance of every stored update (Relay.From), "
+    "so a same-timestamp update that the cache rejects as proto.Equal has the stored value, and one it accepts replaces it. "
+    "RawFaithful cannot be dropped (once_fails_without_rawFaithful).")
+PROP["manifest"]["level_note"] = (
+    "Partial: proved are the cache clause and the ONCE clause exactly as stated (wellFormed false = per-leaf non-decreasing "
+    "timestamps, RawFaithful; pipeline_faithful_once_clause_holds), and the STREAM clause under the same stream hypotheses plus "
+    "`no target named *` and ExactStream (pipeline_faithful_stream_nondecreasing). The literal full statement is false for "
+    "+0.0/-0.0 (pipeline_faithful_refuted; ExactStream hypothesis). gRPC/TLS, process start-up, flag parsing, "
+    "prototext and the CLI's text rendering are exercised by the process-level run, not proved.")
+PROP["assumptions"] = [a.replace(
+    "per leaf non-decreasing timestamps (proved: increasing, or the stored timestamp and value re-sent)",
+    "per leaf non-decreasing timestamps with faithful raw renderings (C01.RawFaithful: two updates of one stream with equal "
+    "canonical renderings have equal values - what proto.Equal guarantees)") for a in PROP["assumptions"]]
